@@ -5,7 +5,9 @@ import (
 	"go/ast"
 	"go/token"
 	"go/types"
+	"reflect"
 	"sort"
+	"strconv"
 	"strings"
 
 	"verif/checker/internal/load"
@@ -42,7 +44,7 @@ func switchKinds(info *types.Info, fd *ast.FuncDecl) map[string]*ast.CaseClause 
 func CheckC11(c *Ctx) {
 	run := c.Run
 	run.Technique = "typed-AST agreement lints between sibling encoder/decoder functions: handled reflect kinds, bit-size table, float/time format arguments, constant-folded os.OpenFile flag sets, header-map indexing, JSON delimiters"
-	run.Explanation = "Round-trip equality for all values depends on strconv, encoding/csv, encoding/json and time and is NOT decided. Decided are the structural agreements without which some value cannot round-trip: getReflectValue and setReflectValue handle the same reflect kinds; every sized numeric kind has a bit size in kindToBits, and the formatter and the parser use the same entry; floats are written with FormatFloat(v, fmt, -1, bits) (shortest representation that parses back exactly); time values are formatted and parsed with the same layout value; WriteToFile opens with O_CREATE|O_WRONLY|O_TRUNC (a shorter rewrite must not keep the old tail) and AppendToFile with O_APPEND|O_WRONLY; AppendOrWriteToCsvFile appends only to an existing non-empty file; the reader indexes each record through the header map; ChanToJSON emits and JSONToChan expects '[' ',' ']'. Column order: header i and cell i of every written row are taken from the same column descriptor at the loop's own position."
+	run.Explanation = "Round-trip equality for all values depends on strconv, encoding/csv, encoding/json and time and is NOT decided. Decided are the structural agreements (and, for every struct with codec tags, that no two fields share a json or header name: encoding/json drops both such fields silently) without which some value cannot round-trip: getReflectValue and setReflectValue handle the same reflect kinds; every sized numeric kind has a bit size in kindToBits, and the formatter and the parser use the same entry; floats are written with FormatFloat(v, fmt, -1, bits) (shortest representation that parses back exactly); time values are formatted and parsed with the same layout value; WriteToFile opens with O_CREATE|O_WRONLY|O_TRUNC (a shorter rewrite must not keep the old tail) and AppendToFile with O_APPEND|O_WRONLY; AppendOrWriteToCsvFile appends only to an existing non-empty file; the reader indexes each record through the header map; ChanToJSON emits and JSONToChan expects '[' ',' ']'. Column order: header i and cell i of every written row are taken from the same column descriptor at the loop's own position."
 	run.Trusted = []string{"go/types constant folding", "strconv/encoding/time semantics of the named functions"}
 	hp := c.P.Pkg("helper")
 	if hp == nil {
@@ -50,6 +52,7 @@ func CheckC11(c *Ctx) {
 		return
 	}
 	info := hp.TypesInfo
+	c.structTagNames()
 	get := c.fn("helper", "", "getReflectValue")
 	set := c.fn("helper", "", "setReflectValue")
 	if get == nil || set == nil {
@@ -689,4 +692,84 @@ func isColumnSlice(t types.Type) bool {
 		}
 	}
 	return false
+}
+
+// structTagNames: in every struct of the module that carries codec tags, the names the codecs
+// use for its fields are pairwise different. encoding/json silently drops BOTH fields when two
+// fields of the same depth have the same name (and matches keys case-insensitively when
+// decoding); the CSV codec maps columns by the `header` name, so two fields with one header
+// read the same column and write a duplicate one.
+func (c *Ctx) structTagNames() {
+	run := c.Run
+	nStructs := 0
+	for _, pk := range c.P.Pkgs {
+		for _, f := range pk.Syntax {
+			if strings.HasSuffix(c.P.Fset.Position(f.Pos()).Filename, "_test.go") {
+				continue
+			}
+			ast.Inspect(f, func(n ast.Node) bool {
+				ts, ok := n.(*ast.TypeSpec)
+				if !ok {
+					return true
+				}
+				st, ok := ts.Type.(*ast.StructType)
+				if !ok || st.Fields == nil {
+					return true
+				}
+				for _, key := range []string{"json", "header"} {
+					seen := map[string]string{}
+					tagged := false
+					for _, fld := range st.Fields.List {
+						if fld.Tag != nil {
+							if tv, err := strconv.Unquote(fld.Tag.Value); err == nil {
+								if _, ok := reflect.StructTag(tv).Lookup(key); ok {
+									tagged = true
+								}
+							}
+						}
+					}
+					if !tagged {
+						continue
+					}
+					nStructs++
+					for _, fld := range st.Fields.List {
+						for _, nm := range fld.Names {
+							if !nm.IsExported() {
+								continue
+							}
+							name := nm.Name
+							if fld.Tag != nil {
+								if tv, err := strconv.Unquote(fld.Tag.Value); err == nil {
+									if v, ok := reflect.StructTag(tv).Lookup(key); ok {
+										v = strings.Split(v, ",")[0]
+										if v == "-" && key == "json" {
+											continue
+										}
+										if v != "" {
+											name = v
+										}
+									}
+								}
+							}
+							k := name
+							if key == "json" {
+								k = strings.ToLower(name) // decoding matches case-insensitively
+							}
+							if other, dup := seen[k]; dup {
+								run.Oblige(false)
+								c.violate("codec-agreement/tag-names", load.RelPkg(pk.PkgPath)+"."+ts.Name.Name, key+":"+name, fld.Pos(),
+									"fields "+other+" and "+nm.Name+" both use the "+key+" name \""+name+"\": encoding/json drops both fields without an error, the CSV codec reads both from one column; the value does not survive a round trip")
+							} else {
+								seen[k] = nm.Name
+								run.Oblige(true)
+							}
+						}
+					}
+				}
+				return true
+			})
+		}
+	}
+	run.Count("tagged_structs", nStructs)
+	run.Floor("tagged_structs", 2)
 }
